@@ -16,7 +16,11 @@ block is zero and it is the only live block, a decode after `reset` equals the d
 into a fresh structure (rc, consumed, DER, one allocation fewer).
 Faithfulness (model vs C): the number of blocks a decoded value owns (Heap.owned, at the
 C's granularity given by the generated member table) equals the C's live-block count,
-and free_model's event count equals it as well."""
+and free_model's event count equals it as well.
+Second layer (lib/c14x_layer.py, model coq/Rt/HeapX.v): every type kind x three flag sets under
+RESET + re-decode (top level and member by member), extensible types and open type holders
+under faults at every byte of every encoding; leaf structures compared with the model on the
+byte level.  The oracle itself lives in lib/c14_util.py (check_history)."""
 import sys, os, re, json, subprocess, time
 from concurrent.futures import ThreadPoolExecutor
 sys.path.insert(0, os.path.join(os.path.dirname(os.path.abspath(__file__)), "..", "lib"))
@@ -183,7 +187,7 @@ def main(tier):
             run.case(line)
             run.count("hist_" + h["kind"])
             run.count("syn_" + h["syn"] + ("_x" if h.get("layer") else ""))
-            rep = {"module": m["text"], "type": c["tn"], "model_type": c["ts"], "value": c["vs"], "history": h["kind"], "command_line": line,
+            rep = {"module": m["text"], "asn1c_opts": " ".join(m.get("opts", ("-fcompound-names",))), "type": c["tn"], "model_type": c["ts"], "value": c["vs"], "history": h["kind"], "command_line": line,
                    "replay_cmd": "echo '%s' | <moddrv of the module built with %s and MODDRV_EXTRA=harness/moddrv_c14.inc>" % (line, WRAP[0])}
             if not h["parsed"]:
                 run.violation("crash:history", dict(rep, what="moddrv died or printed an unparsable line on a history without allocation failure",
@@ -197,7 +201,7 @@ def main(tier):
             line = "hist %s %s" % (c["tn"], ";".join(x["ops"]))
             run.case(line)
             run.count("allocfail_%s_%s%s" % (h["parsed"][x["i"]]["op"], h["ops"][x["i"]].split(":")[-1 if h["parsed"][x["i"]]["op"] == "mrt" else 1], "_x" if h.get("layer") else ""))
-            rep = {"module": m["text"], "type": c["tn"], "model_type": c["ts"], "value": c["vs"], "history": h["kind"], "command_line": line,
+            rep = {"module": m["text"], "asn1c_opts": " ".join(m.get("opts", ("-fcompound-names",))), "type": c["tn"], "model_type": c["ts"], "value": c["vs"], "history": h["kind"], "command_line": line,
                    "failing_op_index": x["i"], "failing_allocation": x["k"], "allocations_of_op": int(h["parsed"][x["i"]]["a"]),
                    "replay_cmd": "echo '%s' | <moddrv of the module built with %s and MODDRV_EXTRA=harness/moddrv_c14.inc>" % (line, WRAP[0])}
             p = parse_hist(x["out"]) if x.get("out") else None
@@ -216,7 +220,7 @@ def main(tier):
         json.dump(run.violations, open(os.environ["C14_DUMP"], "w"), indent=1)
     tb = ["Coq 8.16.1 kernel", "axioms under Print Assumptions: " + (", ".join(sorted(axioms)) or "none (Closed under the global context)"),
           "harness/allocwrap.c (ledger, quarantine, failure trigger), harness/moddrv_c14.inc, harness/moddrv.c, GNU ld --wrap, gcc + ASan/UBSan",
-          "lib/modgen.py, lib/modcorpus.py (corpus), the extracted codec model (encodings of the values)",
+          "lib/modgen.py, lib/modcorpus.py (corpus), lib/extgen.py + lib/c14x_layer.py (second layer), the extracted codec model (encodings of the values)",
           "the real allocator and the detection of double frees are runtime facts: the theorems speak about the ownership discipline of the model"]
     return run.finish("proof", (nthm, ndis), trusted_base=tb,
                       checker_cmd="make -C /verif all && coqc -Q coq A1 coq/Props/Properties_C14.v",
@@ -224,7 +228,8 @@ def main(tier):
                                  "rule": "one case = one history (<= 6 ops on one structure pointer) or one replay of it with one allocation failing; distinct command lines",
                                  "traces_validated_against_impl": run.cov["evaluations"]},
                       assumptions=["partial: the proof carries the ownership discipline of the model (what a structure owns, what free/reset release); the C's allocator behaviour is observed by the ledger on the explored histories only",
-                                   "types outside the modelled algebra are not exercised; values are small (DER <= %d octets)" % (maxder // 2)])
+                                   "base corpus: types of the modelled algebra, values small (DER <= %d octets); the c14x layer exercises every other type kind on hand-written modules "
+                                   "(oracle on the C alone; model tie for leaf structures on the byte level and for failures inside OER open type containers)" % (maxder // 2)])
 
 
 if __name__ == "__main__":
